@@ -64,7 +64,10 @@ pub use pointers::*;
 
 #[cfg(circ_verif)]
 pub mod verif_shim {
+    pub use super::collector::{Collector, LocalHandle};
     pub use super::epoch::verif_shim_epoch::*;
     pub use super::internal::verif_shim_internal::*;
     pub use super::pointers::verif_shim_ptr::*;
+    pub use super::sync::list::verif_shim_list::*;
+    pub use super::sync::queue::verif_shim_queue::*;
 }
